@@ -11,7 +11,7 @@ CONTRACTS = [
                  ('minimal', 'len(result) == X.twos_len(value)'),
                  ('octets', 'isinstance(result, bytes) and X.inr(result)')],
         # no raises clause: OverflowError/ValueError escaping is an obligation (raises.unexpected.*)
-        external=['denotes', 'minimal', 'octets'],
+        external=['denotes', 'minimal', 'octets'], returns=PBytes(),
         note='as called by ber.encoder.IntegerEncoder.encodeValue: to_bytes(int(value), signed=True)',
     ),
     Contract(
